@@ -1151,8 +1151,21 @@ func TranslateFn(w *World, fn *ssa.Function) *FnVC {
 	for _, b := range f.topoOrder() {
 		f.block(b)
 	}
-	for i, e := range f.lemmaErr {
+	var lemmaIdx []int
+	for i := range f.lemmaErr {
+		lemmaIdx = append(lemmaIdx, i)
+	}
+	sort.Ints(lemmaIdx)
+	for _, i := range lemmaIdx {
+		e := f.lemmaErr[i]
 		if !f.lemmaOK[i] {
+			if strings.Contains(e, "unknown identifier") && f.c != nil && i < len(f.c.Lemmas) {
+				// the lemma names something the code no longer has, at every return: cannot be discharged
+				cl := f.c.Lemmas[i]
+				o := f.oblige("lemma", fmt.Sprintf("lemma %s  [cannot be stated on this code: %s]", cl.Src, e), fn.Pos(), f.propsOf(cl), True, False)
+				o.Name = fmt.Sprintf("%s/lemma%d", f.name, i)
+				continue
+			}
 			f.unsupported("%s", e)
 		}
 	}
